@@ -785,6 +785,8 @@ def _rate_new(st, name, uc, um, tc, ta, d):
 
 @op("rate_inv")
 def _rate_inv(st, a, name, d):
+    if ("rate", a) not in st.obj:
+        return "bad-op"
     with dflt_mode(d):
         r = st.obj["rate", a].inverted()
     st.obj["rate", name] = r
@@ -793,6 +795,8 @@ def _rate_inv(st, a, name, d):
 
 @op("rate_op")
 def _rate_op(st, o, a, b, name, d):
+    if ("rate", a) not in st.obj or ("rate", b) not in st.obj:
+        return "bad-op"
     x, y = st.obj["rate", a], st.obj["rate", b]
     with dflt_mode(d):
         r = x * y if o == "mul" else x / y
@@ -802,6 +806,8 @@ def _rate_op(st, o, a, b, name, d):
 
 @op("rate_eq")
 def _rate_eq(st, a, b):
+    if ("rate", a) not in st.obj or ("rate", b) not in st.obj:
+        return "bad-op"
     x, y = st.obj["rate", a], st.obj["rate", b]
     eq = x == y
     assert eq == (y == x)
@@ -813,6 +819,8 @@ def _rate_eq(st, a, b):
 
 @op("money_rate")
 def _money_rate(st, o, m, rn, d):
+    if ("rate", rn) not in st.obj:
+        return "bad-op"
     r = st.obj["rate", rn]
     with dflt_mode(d):
         q = qty_of(m)
